@@ -18,6 +18,9 @@ type binding struct {
 	ty       Type
 	exploded bool              // struct variable tracked field by field (it is assigned through x.f = e)
 	fields   map[string]string // field -> Coq name
+	loopOf   string            // loop index of `for i := k; i < len(xs); i++`: the Go name of xs
+	elem     string            // ... and the Coq name standing for xs[i]
+	elemTy   Type
 }
 
 type Env struct{ scopes []map[string]*binding }
@@ -84,16 +87,36 @@ type fnTr struct {
 	result   Type
 	params   []string // rendered "(x : T)"
 
-	closureMode bool                      // the function returns a function literal: its parameters are appended
+	closureMode bool     // the function returns a function literal: its parameters are appended
 	inClosure   bool
-	closures    map[*ast.FuncLit][]string // Coq names given to a literal's parameters (a literal may be visited twice)
+	cparams     []string // Coq names of the closure parameters (shared by every returned literal)
+	cparamTys   []Type
+
+	hasPanic  bool // the body contains `if c { panic(..) }`
+	panicMode bool // second pass: render the condition under which the Go function panics
 }
 
 func (w *World) translateFunc(m *Module, key string, fd *ast.FuncDecl) (string, error) {
+	hasPanic := false
+	text, err := w.translateFuncPass(m, key, fd, false, &hasPanic)
+	if err != nil || !hasPanic {
+		return text, err
+	}
+	// the function can panic: a companion <name>_panics says when (the main definition yields the zero
+	// value of its result type there; theorems carry the hypothesis <name>_panics ... = false)
+	ptext, err := w.translateFuncPass(m, key, fd, true, &hasPanic)
+	if err != nil {
+		return "", err
+	}
+	return text + "\n" + ptext, nil
+}
+
+func (w *World) translateFuncPass(m *Module, key string, fd *ast.FuncDecl, panicMode bool, hasPanic *bool) (string, error) {
 	p := m.Pkg
 	file := p.FileOf[fd]
 	t := &fnTr{fileCtx: &fileCtx{w: w, mod: m, pkg: p, file: file, imps: fileImports(file)}, key: key,
-		used: map[string]bool{}, explode: map[string]bool{}}
+		used: map[string]bool{}, explode: map[string]bool{}, panicMode: panicMode}
+	defer func() { *hasPanic = t.hasPanic }()
 	if fd.Body == nil {
 		return "", t.errf(fd, "function %s has no body", key)
 	}
@@ -122,11 +145,15 @@ func (w *World) translateFunc(m *Module, key string, fd *ast.FuncDecl) (string, 
 		}
 		return true
 	})
-	t.closures = map[*ast.FuncLit][]string{}
+	var firstLit *ast.FuncLit
 	ast.Inspect(fd.Body, func(n ast.Node) bool {
+		if _, ok := n.(*ast.FuncLit); ok && firstLit != nil {
+			return false // returns inside a literal belong to the literal
+		}
 		if rs, ok := n.(*ast.ReturnStmt); ok && len(rs.Results) == 1 {
-			if _, ok := rs.Results[0].(*ast.FuncLit); ok {
+			if fl, ok := rs.Results[0].(*ast.FuncLit); ok && firstLit == nil {
 				t.closureMode = true
+				firstLit = fl
 			}
 		}
 		return true
@@ -173,9 +200,6 @@ func (w *World) translateFunc(m *Module, key string, fd *ast.FuncDecl) (string, 
 		}
 	}
 	for _, f := range fd.Type.Params.List {
-		if _, ok := f.Type.(*ast.Ellipsis); ok {
-			return "", t.errf(f.Type, "unsupported variadic parameter")
-		}
 		pt, ptr, err := t.resolveType(f.Type)
 		if err != nil {
 			return "", err
@@ -226,6 +250,30 @@ func (w *World) translateFunc(m *Module, key string, fd *ast.FuncDecl) (string, 
 			t.result = Type{K: KTuple, Elems: rts}
 		}
 	}
+	if t.closureMode {
+		// the parameters of the returned function follow the constructor's; every returned literal binds
+		// its own parameter names to these (the names are those of the first literal)
+		if t.result.K != KFunc {
+			return "", t.errf(fd, "function literal returned where %s is expected", t.result)
+		}
+		for _, f := range firstLit.Type.Params.List {
+			pt, _, err := t.resolveType(f.Type)
+			if err != nil {
+				return "", err
+			}
+			for _, n := range f.Names {
+				cn := t.fresh(n.Name)
+				t.cparams = append(t.cparams, cn)
+				t.cparamTys = append(t.cparamTys, pt)
+				if !t.panicMode {
+					t.params = append(t.params, fmt.Sprintf("(%s : %s)", cn, pt.coq(m)))
+				}
+			}
+		}
+		if len(t.cparams) != len(t.result.Params) {
+			return "", t.errf(firstLit, "unsupported function literal with unnamed parameters")
+		}
+	}
 	body, err := t.stmts(fd.Body.List, env, func(e *Env) (string, error) {
 		if t.recvName != "" {
 			return t.valueOf(e.lookup(t.recvName)), nil
@@ -242,8 +290,13 @@ func (w *World) translateFunc(m *Module, key string, fd *ast.FuncDecl) (string, 
 	}
 	pos := p.Fset.Position(fd.Pos())
 	var b strings.Builder
-	fmt.Fprintf(&b, "(* %s/%s:%d  %s *)\n", p.Dir, baseName(pos.Filename), pos.Line, signature(fd))
-	fmt.Fprintf(&b, "Definition %s : %s :=\n", strings.Join(append([]string{coqFuncName(key)}, t.params...), " "), resTy.coq(m))
+	if t.panicMode {
+		fmt.Fprintf(&b, "(* true exactly when the Go function panics (explicit panic statements only) *)\n")
+		fmt.Fprintf(&b, "Definition %s : bool :=\n", strings.Join(append([]string{coqFuncName(key) + "_panics"}, t.params...), " "))
+	} else {
+		fmt.Fprintf(&b, "(* %s/%s:%d  %s *)\n", p.Dir, baseName(pos.Filename), pos.Line, signature(fd))
+		fmt.Fprintf(&b, "Definition %s : %s :=\n", strings.Join(append([]string{coqFuncName(key)}, t.params...), " "), resTy.coq(m))
+	}
 	for _, l := range pre {
 		b.WriteString("  " + l + "\n")
 	}
@@ -340,6 +393,12 @@ func (t *fnTr) zero(ty Type, at ast.Node) (string, error) {
 		return "v3_zero", nil
 	case KVec4:
 		return "v4_zero", nil
+	case KFunc: // Go: nil (calling it panics); total model: the constant zero function
+		z, err := t.zero(ty.Elems[0], at)
+		if err != nil {
+			return "", err
+		}
+		return "(fun" + strings.Repeat(" _", len(ty.Params)) + " => " + z + ")", nil
 	case KStruct:
 		parts := []string{t.ctorName(ty.S)}
 		for _, f := range ty.S.Fields {
@@ -427,7 +486,15 @@ func (t *fnTr) stmts(list []ast.Stmt, env *Env, k cont) (string, error) {
 	case *ast.IfStmt:
 		return t.ifStmt(s, env, next)
 	case *ast.ForStmt:
-		return "", t.errf(s, "unsupported statement: for loop")
+		lets, err := t.forFold(s, env)
+		if err != nil {
+			return "", err
+		}
+		r, err := next(env)
+		if err != nil {
+			return "", err
+		}
+		return joinLets(lets, r), nil
 	case *ast.RangeStmt:
 		return "", t.errf(s, "unsupported statement: range loop")
 	case *ast.SwitchStmt, *ast.TypeSwitchStmt:
@@ -448,6 +515,9 @@ func joinLets(lets []string, body string) string {
 }
 
 func (t *fnTr) ret(s *ast.ReturnStmt, env *Env) (string, error) {
+	if t.panicMode {
+		return "false", nil
+	}
 	switch len(s.Results) {
 	case 0:
 		if t.recvName == "" {
@@ -459,7 +529,15 @@ func (t *fnTr) ret(s *ast.ReturnStmt, env *Env) (string, error) {
 			return t.closure(fl, env)
 		}
 		if t.closureMode && !t.inClosure {
-			return "", t.errf(s, "unsupported: a constructor that returns a function literal must return literals on every path")
+			// `return g` for a function value g: the generated function applies it to the closure parameters
+			v, err := t.expr(s.Results[0], env)
+			if err != nil {
+				return "", err
+			}
+			if !v.ty.eq(t.result) {
+				return "", t.errf(s, "return of type %s where %s is expected", v.ty, t.result)
+			}
+			return "(" + strings.Join(append([]string{v.code}, t.cparams...), " ") + ")", nil
 		}
 		v, err := t.expr(s.Results[0], env)
 		if err != nil {
@@ -499,10 +577,6 @@ func (t *fnTr) closure(fl *ast.FuncLit, env *Env) (string, error) {
 	if t.inClosure {
 		return "", t.errf(fl, "unsupported: function literal returned by a function literal")
 	}
-	names, seen := t.closures[fl]
-	if !seen && len(t.closures) > 0 {
-		return "", t.errf(fl, "unsupported: more than one returned function literal")
-	}
 	ft, _, err := t.resolveType(fl.Type)
 	if err != nil {
 		return "", err
@@ -513,24 +587,14 @@ func (t *fnTr) closure(fl *ast.FuncLit, env *Env) (string, error) {
 	e := env.push()
 	i := 0
 	for _, f := range fl.Type.Params.List {
-		pt, _, err := t.resolveType(f.Type)
-		if err != nil {
-			return "", err
+		if len(f.Names) == 0 {
+			return "", t.errf(fl, "unsupported function literal with unnamed parameters")
 		}
 		for _, n := range f.Names {
-			var cn string
-			if seen {
-				cn = names[i]
-			} else {
-				cn = t.fresh(n.Name)
-				names = append(names, cn)
-				t.params = append(t.params, fmt.Sprintf("(%s : %s)", cn, pt.coq(t.mod)))
-			}
+			e.define(n.Name, &binding{name: t.cparams[i], ty: t.cparamTys[i]})
 			i++
-			e.define(n.Name, &binding{name: cn, ty: pt})
 		}
 	}
-	t.closures[fl] = names
 	t.inClosure = true
 	defer func() { t.inClosure = false }()
 	return t.stmts(fl.Body.List, e, func(*Env) (string, error) {
@@ -784,6 +848,33 @@ func (t *fnTr) ifStmt(s *ast.IfStmt, env *Env, next cont) (string, error) {
 	if c.ty.K != KBool {
 		return "", t.errf(s.Cond, "condition is not boolean")
 	}
+	// `if c { panic(..) }`: Go stops here; the total Gallina function yields the zero value of its result
+	// type and <name>_panics (second pass) yields true
+	if s.Else == nil && len(s.Body.List) == 1 && isPanicStmt(s.Body.List[0]) {
+		if t.inClosure {
+			return "", t.errf(s, "unsupported statement: panic inside a returned function literal")
+		}
+		t.hasPanic = true
+		var thenCode string
+		if t.panicMode {
+			thenCode = "true"
+		} else {
+			rt := t.result
+			if t.closureMode {
+				rt = rt.Elems[0]
+			}
+			thenCode, err = t.zero(rt, s)
+			if err != nil {
+				return "", err
+			}
+		}
+		elseCode, err := next(env)
+		if err != nil {
+			return "", err
+		}
+		code := fmt.Sprintf("if %s\nthen (* panic *) %s\nelse (\n%s)", c.code, thenCode, indent(elseCode, "  "))
+		return joinLets(initLets, code), nil
+	}
 	// conditional single assignment to an outer scalar/vector variable, no else: a phi
 	if s.Else == nil && len(s.Body.List) == 1 {
 		if as, ok := s.Body.List[0].(*ast.AssignStmt); ok && as.Tok == token.ASSIGN && len(as.Lhs) == 1 && len(as.Rhs) == 1 {
@@ -833,6 +924,129 @@ func (t *fnTr) ifStmt(s *ast.IfStmt, env *Env, next cont) (string, error) {
 	return joinLets(initLets, code), nil
 }
 
+func isPanicStmt(s ast.Stmt) bool {
+	es, ok := s.(*ast.ExprStmt)
+	if !ok {
+		return false
+	}
+	call, ok := es.X.(*ast.CallExpr)
+	if !ok {
+		return false
+	}
+	id, ok := call.Fun.(*ast.Ident)
+	return ok && id.Name == "panic"
+}
+
+// forFold: the one loop shape inside the subset,
+//
+//	for i := K; i < len(xs); i++ { acc = E }      (E mentions i only as xs[i]; xs a read-only list)
+//
+// becomes  let acc' := fold_left (fun acc x_i => E) (skipn K xs) acc in ...
+func (t *fnTr) forFold(s *ast.ForStmt, env *Env) ([]string, error) {
+	bad := func(n ast.Node, what string) ([]string, error) {
+		return nil, t.errf(n, "unsupported statement: for loop (%s; only `for i := K; i < len(xs); i++ { acc = E }`)", what)
+	}
+	init, ok := s.Init.(*ast.AssignStmt)
+	if !ok || init.Tok != token.DEFINE || len(init.Lhs) != 1 || len(init.Rhs) != 1 {
+		return bad(s, "initialiser")
+	}
+	iv, ok := init.Lhs[0].(*ast.Ident)
+	if !ok {
+		return bad(s, "initialiser")
+	}
+	start, ok := intLit(init.Rhs[0])
+	if !ok || strings.HasPrefix(start, "-") {
+		return bad(s, "start index is not a non-negative integer literal")
+	}
+	cond, ok := s.Cond.(*ast.BinaryExpr)
+	if !ok || cond.Op != token.LSS {
+		return bad(s, "condition")
+	}
+	if ci, ok := cond.X.(*ast.Ident); !ok || ci.Name != iv.Name {
+		return bad(s, "condition")
+	}
+	lc, ok := cond.Y.(*ast.CallExpr)
+	if !ok || len(lc.Args) != 1 {
+		return bad(s, "bound is not len(xs)")
+	}
+	if lf, ok := lc.Fun.(*ast.Ident); !ok || lf.Name != "len" || env.lookup("len") != nil {
+		return bad(s, "bound is not len(xs)")
+	}
+	xs, ok := lc.Args[0].(*ast.Ident)
+	if !ok {
+		return bad(s, "bound is not len(xs)")
+	}
+	xb := env.lookup(xs.Name)
+	if xb == nil || xb.ty.K != KList {
+		return bad(s, "bound is not the length of a list parameter")
+	}
+	post, ok := s.Post.(*ast.IncDecStmt)
+	if !ok || post.Tok != token.INC {
+		return bad(s, "post statement")
+	}
+	if pi, ok := post.X.(*ast.Ident); !ok || pi.Name != iv.Name {
+		return bad(s, "post statement")
+	}
+	if len(s.Body.List) != 1 {
+		return bad(s, "body is not a single assignment")
+	}
+	as, ok := s.Body.List[0].(*ast.AssignStmt)
+	if !ok || as.Tok != token.ASSIGN || len(as.Lhs) != 1 || len(as.Rhs) != 1 {
+		return bad(s, "body is not a single assignment")
+	}
+	acc, ok := as.Lhs[0].(*ast.Ident)
+	if !ok || acc.Name == iv.Name || acc.Name == xs.Name {
+		return bad(s, "body is not an assignment to an accumulator variable")
+	}
+	ab := env.lookup(acc.Name)
+	if ab == nil || ab.exploded || ab.loopOf != "" {
+		return bad(s, "accumulator is not a plain local variable")
+	}
+	switch ab.ty.K {
+	case KFloat, KVec2, KVec3, KVec4, KBool:
+	default:
+		return bad(s, "accumulator type "+ab.ty.String())
+	}
+	inner := env.clone().push()
+	accName := t.fresh(acc.Name + "_acc")
+	elemName := t.fresh(xs.Name + "_i")
+	inner.define(iv.Name, &binding{name: "?", ty: tInt, loopOf: xs.Name, elem: elemName, elemTy: xb.ty.Elems[0]})
+	inner.assign(acc.Name, &binding{name: accName, ty: ab.ty})
+	v, err := t.expr(as.Rhs[0], inner)
+	if err != nil {
+		return nil, err
+	}
+	if !v.ty.eq(ab.ty) {
+		return nil, t.errf(as, "assignment changes the type of %s", acc.Name)
+	}
+	list := xb.name
+	if start != "0" {
+		list = fmt.Sprintf("(skipn %s %s)", start, xb.name)
+	}
+	fold := val{fmt.Sprintf("(fold_left (fun %s %s => %s) %s %s)", accName, elemName, v.code, list, ab.name), ab.ty}
+	return t.bind(acc.Name, fold, env, false, as)
+}
+
+// intLit: a (parenthesised) decimal integer literal
+func intLit(e ast.Expr) (string, bool) {
+	for {
+		pe, ok := e.(*ast.ParenExpr)
+		if !ok {
+			break
+		}
+		e = pe.X
+	}
+	bl, ok := e.(*ast.BasicLit)
+	if !ok || bl.Kind != token.INT {
+		return "", false
+	}
+	z, ok := new(big.Int).SetString(strings.ReplaceAll(bl.Value, "_", ""), 0)
+	if !ok {
+		return "", false
+	}
+	return z.String(), true
+}
+
 // ---------------------------------------------------------------- expressions
 
 func litCode(lit string, at ast.Node, t *fnTr) (val, error) {
@@ -875,6 +1089,9 @@ func (t *fnTr) expr(e ast.Expr, env *Env) (val, error) {
 			return val{"false", tBool}, nil
 		}
 		if b := env.lookup(e.Name); b != nil {
+			if b.loopOf != "" {
+				return val{}, t.errf(e, "unsupported use of loop index %s (only as %s[%s])", e.Name, b.loopOf, e.Name)
+			}
 			return val{t.valueOf(b), b.ty}, nil
 		}
 		if vs, ok := t.pkg.Values[e.Name]; ok {
@@ -917,6 +1134,40 @@ func (t *fnTr) expr(e ast.Expr, env *Env) (val, error) {
 		y, err := t.expr(e.Y, env)
 		if err != nil {
 			return val{}, err
+		}
+		if x.ty.K == KInt || y.ty.K == KInt {
+			// integer arithmetic (Z): the other operand is an int expression or an integer literal
+			if x.ty.K != KInt {
+				l, ok := intLit(e.X)
+				if !ok {
+					return val{}, t.errf(e, "unsupported operator %s on %s and %s", e.Op, x.ty, y.ty)
+				}
+				x = val{"(" + l + ")%Z", tInt}
+			}
+			if y.ty.K != KInt {
+				l, ok := intLit(e.Y)
+				if !ok {
+					return val{}, t.errf(e, "unsupported operator %s on %s and %s", e.Op, x.ty, y.ty)
+				}
+				y = val{"(" + l + ")%Z", tInt}
+			}
+			switch e.Op {
+			case token.ADD, token.SUB, token.MUL:
+				return val{fmt.Sprintf("(%s %s %s)%%Z", x.code, e.Op, y.code), tInt}, nil
+			case token.LSS:
+				return val{fmt.Sprintf("(%s <? %s)%%Z", x.code, y.code), tBool}, nil
+			case token.LEQ:
+				return val{fmt.Sprintf("(%s <=? %s)%%Z", x.code, y.code), tBool}, nil
+			case token.GTR:
+				return val{fmt.Sprintf("(%s <? %s)%%Z", y.code, x.code), tBool}, nil
+			case token.GEQ:
+				return val{fmt.Sprintf("(%s <=? %s)%%Z", y.code, x.code), tBool}, nil
+			case token.EQL:
+				return val{fmt.Sprintf("(%s =? %s)%%Z", x.code, y.code), tBool}, nil
+			case token.NEQ:
+				return val{fmt.Sprintf("(negb (%s =? %s)%%Z)", x.code, y.code), tBool}, nil
+			}
+			return val{}, t.errf(e, "unsupported integer operator %s", e.Op)
 		}
 		switch e.Op {
 		case token.LAND, token.LOR:
@@ -990,7 +1241,30 @@ func (t *fnTr) expr(e ast.Expr, env *Env) (val, error) {
 	case *ast.FuncLit:
 		return val{}, t.errf(e, "unsupported function literal (only `return func(...) {...}` of a constructor)")
 	case *ast.IndexExpr:
-		return val{}, t.errf(e, "unsupported index expression")
+		xs, err := t.expr(e.X, env)
+		if err != nil {
+			return val{}, err
+		}
+		if xs.ty.K != KList {
+			return val{}, t.errf(e, "unsupported index expression on %s", xs.ty)
+		}
+		if id, ok := e.Index.(*ast.Ident); ok {
+			if b := env.lookup(id.Name); b != nil && b.loopOf != "" {
+				if xid, ok := e.X.(*ast.Ident); ok && xid.Name == b.loopOf {
+					return val{b.elem, b.elemTy}, nil
+				}
+			}
+		}
+		// constant index: Go panics when it is out of range; the total model yields the zero value there
+		k, ok := intLit(e.Index)
+		if !ok || strings.HasPrefix(k, "-") {
+			return val{}, t.errf(e, "unsupported index expression (only xs[<literal>] and the loop form xs[i])")
+		}
+		z, err := t.zero(xs.ty.Elems[0], e)
+		if err != nil {
+			return val{}, err
+		}
+		return val{fmt.Sprintf("(nth %s %s %s)", k, xs.code, z), xs.ty.Elems[0]}, nil
 	case *ast.StarExpr:
 		return val{}, t.errf(e, "unsupported pointer dereference")
 	}
